@@ -89,6 +89,8 @@ fn main() {
                 "SliceIter" => m_sliceiter::record(&mut rng, n, &mut out),
                 "Chars" => m_chars::record(&mut rng, n, &mut out),
                 "Split" => m_split::record(&mut rng, n, &mut out),
+                "Ownership-5" => m_ownership::record(5, &mut rng, n, &mut out),
+                "Ownership-8" => m_ownership::record(8, &mut rng, n, &mut out),
                 "ParseInt" => m_parseint::record(&mut rng, n, &mut out),
                 "RangeIter-u16" => m_rangeiter::record("u16", &mut rng, n, &mut out),
                 "RangeIter-i16" => m_rangeiter::record("i16", &mut rng, n, &mut out),
